@@ -34,6 +34,7 @@ type Env struct {
 	hdrIssued bool
 
 	EverOverflow bool // some transaction enabled the overflow area on this file
+	injAtBegin   int  // injected failures at the begin of the running transaction
 	inCommit  bool
 
 	// bookkeeping of the driver (to generate valid operations; never used for verdicts)
@@ -405,6 +406,7 @@ func (e *Env) Close() error {
 		return nil
 	}
 	err := e.F.Close()
+	e.F = nil
 	e.unsinkOld()
 	return err
 }
@@ -436,6 +438,7 @@ func (e *Env) Begin(opts txfile.TxOptions) error {
 		return err
 	}
 	e.Tx = tx
+	e.injAtBegin = e.Disk.Injected()
 	if opts.EnableOverflowArea {
 		e.EverOverflow = true
 	}
@@ -581,7 +584,7 @@ func (e *Env) endTx(committed bool) {
 // Commit commits the write transaction.
 func (e *Env) Commit() error {
 	err := e.Tx.Commit()
-	e.Emit(core.Event{"ev": "Commit", "err": ErrKind(err), "hdrIssued": e.hdrIssued, "st": e.St()})
+	e.Emit(core.Event{"ev": "Commit", "err": ErrKind(err), "hdrIssued": e.hdrIssued, "faulty": e.Disk.Injected() > e.injAtBegin, "oom": err != nil && (txerr.Is(txfile.OutOfMemory, err) || txerr.Is(txfile.NoDiskSpace, err)), "st": e.St()})
 	e.endTx(err == nil)
 	return err
 }
@@ -594,7 +597,7 @@ func (e *Env) Rollback(closeOnly bool) error {
 	} else {
 		err = e.Tx.Rollback()
 	}
-	e.Emit(core.Event{"ev": "Rollback", "err": ErrKind(err), "hdrIssued": false, "close": closeOnly, "st": e.St()})
+	e.Emit(core.Event{"ev": "Rollback", "err": ErrKind(err), "hdrIssued": false, "faulty": e.Disk.Injected() > e.injAtBegin, "close": closeOnly, "st": e.St()})
 	e.endTx(false)
 	return err
 }
